@@ -342,6 +342,73 @@ def main():
                            "value_bits": v, "impl": g, "spec": e, "how": "harness/C06/alterconv <scratch>; stdin '<A> <T1> <T2> <n> <hex...>'"})
     except vlib.BuildError as e:
         chk.violation("build", "alter harness build failed: " + str(e)[:1500], {"kind": "build"}, found=False)
+    # ---- CONST/CARRAY created with a value (gd_add_const, gd_madd_const, gd_add_carray, gd_madd_carray) ----
+    try:
+        exe5 = vlib.build_harness(impl, os.path.join(vlib.VERIF, "harness/C06/addconv.c"))
+        SCONST = {0: 6, 2: 6, 4: 6, 6: 6, 1: 7, 3: 7, 5: 7, 7: 7, 8: 9, 9: 9, 10: 11, 11: 11}
+        nv = 10 if not chk.thorough else 48
+        hl, ml, meta = [], [], []
+        for a in range(12):
+            base = src[a] if a < 10 else src[a - 2]
+            for t in range(12):
+                vals = [base[rng.randrange(len(base))] for _ in range(nv)]
+                if a >= 10:
+                    vals = [(v, base[rng.randrange(len(base))]) for v in vals]
+                hl.append("%d %d %d %s" % (a, t, nv, " ".join((("%x %x" % v) if a >= 10 else ("%x" % v)) for v in vals)))
+                for r in range(12):
+                    for v in vals:
+                        ml.append("X 2 %d %d %d %s" % (a, SCONST[t], r, ("%x %x" % v) if a >= 10 else ("%x" % v)))
+                meta.append((a, t, vals))
+        sd = vlib.scratch("verif-c06add-")
+        import concurrent.futures as cf
+        shards = [hl[i::vlib.NPROC] for i in range(vlib.NPROC)]
+        def runsh5(k):
+            d = os.path.join(sd, "s%d" % k); os.makedirs(d, exist_ok=True)
+            return vlib.sh([exe5, d], inp=("\n".join(shards[k]) + "\n").encode(), timeout=1200)
+        with cf.ThreadPoolExecutor(vlib.NPROC) as ex:
+            outs = list(ex.map(runsh5, range(vlib.NPROC)))
+        per_line, fails = {}, []
+        for k, (rcx, o) in enumerate(outs):
+            ls = o.split("\n")
+            fails += [l for l in ls if l.startswith("ADDFAIL")]
+            per = [l for l in ls if l[:2] in ("N ", "M ", "P ", "Q ")]
+            for j in range(len(shards[k])):
+                per_line[k + j * vlib.NPROC] = per[j * 48:(j + 1) * 48]
+        rcm, mo = vlib.sh([drv], inp=("\n".join(ml) + "\n").encode(), timeout=3000)
+        mo = mo.strip().split("\n")
+        mi, nadd, bad_add = 0, 0, {}
+        PATHS = ["add_const", "madd_const", "add_carray", "madd_carray"]
+        for li, (a, t, vals) in enumerate(meta):
+            got = per_line.get(li, [])
+            if len(got) != 48:
+                chk.violation("add-harness", "add harness produced %d lines for %s into %s" % (len(got), NAMES[a], NAMES[t]), {"kind": "harness", "out": got[:3]}, found=False)
+                mi += 12 * len(vals)
+                continue
+            for r in range(12):
+                nc = 2 if r >= 10 else 1
+                rows = [got[k * 12 + r].split()[2:] for k in range(4)]
+                for i, v in enumerate(vals):
+                    exp = mo[mi]; mi += 1; nadd += 4
+                    if exp == "U":
+                        continue
+                    for k in range(4):
+                        g = " ".join(rows[k][i * nc:(i + 1) * nc])
+                        if g != exp:
+                            bad_add.setdefault((PATHS[k], a, t, r), []).append((v, g, exp))
+        chk.cov["evaluations"] += nadd
+        chk.cov["add_path_evaluations"] = nadd
+        if fails:
+            chk.violation("api/add/call-failed", "gd_add_const/gd_madd_const/gd_add_carray/gd_madd_carray failed on a plain dirfile: %s" % fails[0], {"kind": "impl-vs-spec", "lines": fails[:5]})
+        for (path, a, t, r), l in sorted(bad_add.items())[:12]:
+            v, g, e = l[0]
+            found_any = True
+            chk.violation("api/%s/%s->%s->%s" % (path, NAMES[a], NAMES[t], NAMES[r]),
+                          "gd_%s: caller %s value bits %s given for a new %s, read as %s gives %s, the C conversions through the storage type demand %s (%d such values)" % (
+                              path, NAMES[a], v, NAMES[t], NAMES[r], g, e, len(l)),
+                          {"kind": "impl-vs-spec", "path": path, "caller_type": NAMES[a], "const_type": NAMES[t], "return_type": NAMES[r],
+                           "value_bits": v, "impl": g, "spec": e, "how": "harness/C06/addconv <scratch>; stdin '<A> <T> <n> <hex...>'"})
+    except vlib.BuildError as e:
+        chk.violation("build", "add harness build failed: " + str(e)[:1500], {"kind": "build"}, found=False)
     # ---- conversions inside derived fields: two consecutive reads with different return types ----
     try:
         exe3 = vlib.build_harness(impl, os.path.join(vlib.VERIF, "harness/C06/derivconv.c"))
